@@ -2122,7 +2122,9 @@ double BW_MidiSequencer::Tick(double s, double granularity)
     {
         if(!processEvents())
             break;
-        if(m_currentPosition.wait <= 0.0)
+        // Count every round that does not leave the loop: a zero-length loop can hold the
+        // wait at a tiny positive value (tempo multiplier != 1) as well as at zero
+        if(m_currentPosition.wait <= granularity * 0.5)
             antiFreezeCounter--;
     }
 
